@@ -36,10 +36,16 @@ for s in $seeds; do
   verdict="not run"; rule=""
   if $applies && $builds; then
     cd $wt; git apply $d/patch.diff
-    out=$(cd "$VHOME" && VERIF_REPO=$wt VERIF_EVIDENCE_DIR=/var/tmp/seed-evidence-$$ VERIF_REPLAY_DIR=/var/tmp/seed-replays-$$ ./check $prop quick 2>&1); rc=$?
+    # the check of the seed's own property first; then the checks named in meta.json "checked_by" (a change written against one
+    # property that is caught by the check of another one, e.g. a Timeout change that breaks Retry is caught by C19)
+    others=$(python3 -c "import json;print(' '.join(json.load(open('$d/meta.json')).get('checked_by',[])))")
+    for cp in $prop $others; do
+      out=$(cd "$VHOME" && VERIF_REPO=$wt VERIF_EVIDENCE_DIR=/var/tmp/seed-evidence-$$ VERIF_REPLAY_DIR=/var/tmp/seed-replays-$$ ./check $cp quick 2>&1); rc=$?
+      rule=$(echo "$out" | grep -m1 -oE "^violation: rule=[A-Z0-9.]+ sig='[^']*'|^violation: rule=[A-Z0-9.]+ sig=\"[^\"]*\"" | sed 's/^violation: //')
+      case $rc in 0) verdict="MISSED";; 1) verdict="DETECTED";; *) verdict="MACHINERY($rc)";; esac
+      [ $rc -eq 0 ] || break
+    done
     git checkout -q -- .; git clean -fdq
-    rule=$(echo "$out" | grep -m1 -oE "^violation: rule=[A-Z0-9.]+ sig='[^']*'|^violation: rule=[A-Z0-9.]+ sig=\"[^\"]*\"" | sed 's/^violation: //')
-    case $rc in 0) verdict="MISSED";; 1) verdict="DETECTED";; *) verdict="MACHINERY($rc)";; esac
   fi
   python3 - "$d" "$pkg" "$applies" "$builds" "$suite" "$demo_with" "$demo_without" "$verdict" "$rule" <<'PY'
 import json,sys,subprocess
@@ -51,7 +57,7 @@ if suite=='not run' and 'audit' in m:
     # check-only pass (AUDIT_CHECK_ONLY=1): the suite and demonstration results of the last full audit are kept
     a=m['audit']
     a.update({'repo_head':head,'patch_applies':applies=='true','builds':builds=='true','check_quick_verdict':verdict,'first_violation':rule})
-    m['detected_by']=('./check %s quick: %s'%(m['property'],rule)) if verdict=='DETECTED' else verdict
+    m['detected_by']=('./check %s quick: %s'%(rule.split('=')[1].split('.')[0] if rule.startswith('rule=') else m['property'],rule)) if verdict=='DETECTED' else verdict
     json.dump(m,open(d+'/meta.json','w'),indent=1)
     print('%-8s applies=%s builds=%s (check only) check=%s %s'%(d.split('/')[-1],applies,builds,verdict,rule[:90]))
     sys.exit(0)
@@ -59,7 +65,7 @@ m['audit']={'repo_head':head,'patch_applies':applies=='true','builds':builds=='t
   'existing_suite_with_change (go test -vet=off -count=1 ./..., known-flaky tests ignored)':suite,
   'demo_exit_with_change':int(dw),'demo_exit_without_change':int(dwo),
   'check_quick_verdict':verdict,'first_violation':rule}
-m['detected_by']=('./check %s quick: %s'%(m['property'],rule)) if verdict=='DETECTED' else verdict
+m['detected_by']=('./check %s quick: %s'%(rule.split('=')[1].split('.')[0] if rule.startswith('rule=') else m['property'],rule)) if verdict=='DETECTED' else verdict
 json.dump(m,open(d+'/meta.json','w'),indent=1)
 print('%-8s applies=%s builds=%s suite=%s demo(with/without)=%s/%s check=%s %s'%(d.split('/')[-1],applies,builds,suite[:60],dw,dwo,verdict,rule[:90]))
 PY
